@@ -52,6 +52,7 @@ fn check_unsigned(ctx: &mut Ctx, v: u64) {
     if near_boundary_u(v) {
         ctx.nontrivial();
     }
+    ctx.outcome(&(vint_min_width(v), id_well_formed(v)));
     // default encoder
     ctx.transitions += 1;
     match guard(|| v.as_vint()) {
@@ -205,6 +206,7 @@ fn check_slice(ctx: &mut Ctx, s: &[u8]) {
         return;
     }
     let want = vint_decode(s);
+    ctx.outcome(&(s.len(), match want { VintDec::Ok(_, l) => l, VintDec::NeedMore => 100, VintDec::Invalid => 101 }));
     if !s.is_empty() && (s[0] == 0 || matches!(want, VintDec::NeedMore) || s[0] <= 1) {
         ctx.nontrivial();
     }
